@@ -39,6 +39,15 @@ def obligations(tier, ctx):
             obs.append(Ob(name="traffic_" + "_".join(map(str, kt)), params=[(f"g{i}", "int") for i in range(n)] + [("T", "int"), ("c", "int"), ("ra", "int")],
                           pre=[f"0 <= g{i} <= {GAP_MAX}" for i in range(n)] + [f"1 <= T <= {T_MAX}", f"0 <= c <= {C_MAX}", f"-1 <= ra <= {max(nprog - 1, -1)}"],
                           call=f"H.traffic({kt!r}, {gl}, T, c, ra)", real=f"H.traffic_real({kt!r}, {gl}, T, c, ra)", backend="P", timeout=240, family="cancel-at-c"))
+    if tier != "quick":
+        # floods: four messages of one kind (gaps >= 0 ticks, i.e. down to back-to-back), then optionally the response
+        for kt in [(4, 4, 4, 4), (3, 3, 3, 3), (6, 6, 6, 6), (5, 5, 5, 5), (4, 4, 4, 0), (3, 4, 3, 0)]:
+            n = len(kt)
+            gl = "[" + ", ".join(f"g{i}" for i in range(n)) + "]"
+            nprog = sum(1 for k in kt if k in (5, 10, 11))
+            obs.append(Ob(name="flood_" + "_".join(map(str, kt)), params=[(f"g{i}", "int") for i in range(n)] + [("T", "int"), ("c", "int"), ("ra", "int")],
+                          pre=[f"0 <= g{i} <= 70" for i in range(n)] + [f"1 <= T <= {T_MAX}", f"0 <= c <= {C_MAX}", f"-1 <= ra <= {max(nprog - 1, -1)}"],
+                          call=f"H.traffic({kt!r}, {gl}, T, c, ra)", real=f"H.traffic_real({kt!r}, {gl}, T, c, ra)", backend="P", timeout=900, family="floods (4 messages, gaps 0..70 ticks)"))
     for kt in [(), (0,), (5, 0)]:
         n = len(kt)
         gl = "[" + ", ".join(f"g{i}" for i in range(n)) + "]"
